@@ -15,8 +15,9 @@ def showLM : LM Int → String
   | .ok v => toString v
   | .error e => e.toString
 
-/-- table for the loop mirrors: only as far as the real code's own tables reach -/
-def leafTable (n : Nat) : Option NT := if n > 60000000 then none else some (NT.build (n + 1))
+/-- table for the loop mirrors: only as far as the real code's own tables reach (and at least the first eight
+    primes: `nth_prime(c)`, `c ≤ 8`, is answered from the same table) -/
+def leafTable (n : Nat) : Option NT := if n > 60000000 then none else some (NT.build (max n 19 + 1))
 
 def withLeafTable (n : Nat) (f : NT → String) : String :=
   match leafTable n with
